@@ -99,3 +99,85 @@ package evm
 //@   loop 1 invariant 0 <= i && 0 <= i && calls(beginExec) == i && calls(end) == i && size == len(txs)
 //@   loop 2 invariant 0 <= j && calls(beginExec) == i + 1 && calls(end) == i
 //@   loop 3 invariant calls(beginExec) == i + 1 && calls(end) == i
+
+// ---------------------------------------------------------------------------------------------
+// transaction pool (C19): the per-account nonce-sorted map
+
+// representation invariant: the heap index holds exactly the nonces that are keys of items, each stored transaction
+// sits under its own nonce
+//@ pred wfTSMcore(m *txSortedMap) = m != nil && m.items != nil && m.index != nil && nhMin(m.index) && len(*m.index) == len(m.items) \
+//@      && forall(k, Int, has(m.items, k) == nhSet[m.index][k]) && forall(k, Int, has(m.items, k) ==> m.items[k] != nil && txNonce(m.items[k]) == k && 0 <= k && k < 18446744073709551616)
+// the cached sorted list, when present, lists every stored transaction
+//@ pred wfTSM(m *txSortedMap) = wfTSMcore(m) && (m.cache == nil || len(m.cache) == len(m.items))
+
+//@ func (nonceHeap).Len
+//@   props C19
+//@   pure
+//@   ensures result == len(h)
+
+//@ func (*txSortedMap).Len
+//@   props C19
+//@   requires m != nil
+//@   pure
+//@   ensures result == len(m.items)
+
+//@ func (*txSortedMap).Get
+//@   props C19
+//@   requires m != nil
+//@   pure
+//@   ensures result == ite(has(m.items, nonce), m.items[nonce], nil)
+
+//@ func (*txSortedMap).Put
+//@   props C19
+//@   requires tx != nil
+//@   invariant-assumed wfTSM(m)
+//@   assigns  nhSet, *m.index, (*m.index)[*], m.items[*], m.cache
+//@   ensures  [stored-under-its-nonce] has(m.items, txNonce(tx)) && m.items[txNonce(tx)] == tx
+//@   ensures  [other-nonces-untouched] forall(k, Int, k != txNonce(tx) ==> has(m.items, k) == old(has(m.items, k)) && m.items[k] == old(m.items[k]))
+//@   ensures  wfTSM(m)
+
+//@ func (*txSortedMap).Add
+//@   props C19
+//@   requires tx != nil
+//@   invariant-assumed wfTSM(m)
+//@   assigns  nhSet, *m.index, (*m.index)[*], m.items[*], m.cache
+//@   ensures  [same-nonce-is-rejected] (result != nil) == old(has(m.items, txNonce(tx)))
+//@   ensures  [rejected-changes-nothing] result != nil ==> forall(k, Int, has(m.items, k) == old(has(m.items, k)) && m.items[k] == old(m.items[k]))
+//@   ensures  [accepted-stored-under-its-nonce] result == nil ==> has(m.items, txNonce(tx)) && m.items[txNonce(tx)] == tx
+//@   ensures  [other-nonces-untouched] forall(k, Int, k != txNonce(tx) ==> has(m.items, k) == old(has(m.items, k)) && m.items[k] == old(m.items[k]))
+//@   ensures  wfTSM(m)
+
+//@ func (*txSortedMap).Forward
+//@   props C19
+//@   invariant-assumed wfTSM(m)
+//@   assigns  nhSet, *m.index, (*m.index)[*], m.items[*], m.cache
+//@   ensures  [exactly-the-lower-nonces-removed] forall(k, Int, has(m.items, k) == (old(has(m.items, k)) && k >= threshold))
+//@   ensures  [kept-transactions-untouched] forall(k, Int, has(m.items, k) ==> m.items[k] == old(m.items[k]))
+//@   ensures  [removed-are-returned] len(result) == old(len(m.items)) - len(m.items)
+//@   ensures  wfTSM(m)
+//@   loop 0 invariant wfTSMcore(m)
+//@   loop 0 invariant len(removed) == old(len(m.items)) - len(m.items)
+//@   loop 0 invariant (removed == nil && len(removed) == 0) || fresh(removed)
+//@   loop 0 invariant m.cache == old(m.cache) && arr(*m.index) == old(arr(*m.index))
+//@   loop 0 invariant forall(k, Int, has(m.items, k) ==> old(has(m.items, k)) && m.items[k] == old(m.items[k]))
+//@   loop 0 invariant forall(k, Int, old(has(m.items, k)) && !has(m.items, k) ==> k < threshold)
+
+//@ func (*txSortedMap).ReadyN
+//@   props C19
+//@   invariant-assumed wfTSM(m)
+//@   assigns  nhSet, *m.index, (*m.index)[*], m.items[*], m.cache
+//@   let lo = old((*m.index)[0])
+//@   ensures  [nothing-ready-changes-nothing] (old(len(m.items)) == 0 || lo > start || count <= 0) ==> result == nil && forall(k, Int, has(m.items, k) == old(has(m.items, k)) && m.items[k] == old(m.items[k]))
+//@   ensures  [ready-run-is-consecutive-from-the-least-nonce] forall(j, 0, len(result), result[j] != nil && result[j] == old(m.items[lo + j]) && txNonce(result[j]) == lo + j)
+//@   ensures  [at-most-count] count > 0 ==> len(result) <= count
+//@   ensures  [run-starts-at-or-below-start] len(result) > 0 ==> lo <= start
+//@   ensures  [exactly-the-run-is-removed] forall(k, Int, has(m.items, k) == (old(has(m.items, k)) && !(lo <= k && k < lo + len(result))))
+//@   ensures  [run-is-maximal] len(result) > 0 && (count <= 0 || len(result) < count) ==> !old(has(m.items, lo + len(result)))
+//@   ensures  wfTSM(m)
+//@   loop 0 invariant wfTSMcore(m) && arr(*m.index) == old(arr(*m.index))
+//@   loop 0 invariant lo + len(ready) <= 18446744073709551616 && next == (lo + len(ready)) % 18446744073709551616 && len(ready) >= 0 && len(ready) < count && lo <= start && count > 0
+//@   loop 0 invariant forall(k, Int, old(has(m.items, k)) ==> lo <= k && k < 18446744073709551616)
+//@   loop 0 invariant (ready == nil && len(ready) == 0) || fresh(ready)
+//@   loop 0 invariant forall(j, 0, len(ready), ready[j] != nil && ready[j] == old(m.items[lo + j]) && txNonce(ready[j]) == lo + j)
+//@   loop 0 invariant forall(k, Int, has(m.items, k) == (old(has(m.items, k)) && !(lo <= k && k < lo + len(ready))))
+//@   loop 0 invariant forall(k, Int, has(m.items, k) ==> m.items[k] == old(m.items[k]))
